@@ -4,7 +4,7 @@ Engine B, sub-domain certificates (the installed Coq libraries define no Bessel/
 CERTIFIED per instance (one Coq lemma `Rabs (y - ref) <= 2^(8-p) * Rabs ref`; integrals are Coquelicot `RInt` terms enclosed by
 Coq Interval's `integral_intro`):
   besselj(n, x), integer n (incl. negative), real dyadic x:  (1/PI) RInt cos(n t - x sin t) 0 PI   (Bessel's integral);
-  besselj(n, x), 0 <= n <= 16, 0 < x < 1 tiny (down to 2^-24): exact rational partial sums of the defining alternating series,
+  besselj(n, x), 0 <= n <= 16, 0 < x < 1 tiny (down to 2^-36): exact rational partial sums of the defining alternating series,
   the value lies between two consecutive partial sums (ASSUMED Leibniz bound);
   besseli(n, x), integer n:                                 (1/PI) RInt exp(x cos t) cos(n t) 0 PI;
   angerj(v, x), webere(v, x), any dyadic order v:            (1/PI) RInt cos / sin (v t - x sin t) 0 PI   (their definitions);
@@ -33,7 +33,7 @@ from specb import *
 
 LEVEL = "exploration"
 PRECS_QUICK = [20, 53, 53, 53]
-PRECS_THOROUGH = [20, 53, 100, 200]
+PRECS_THOROUGH = [20, 53, 53, 100, 100, 200]
 PRECS_EL = [15, 53, 113, 400]
 PRECS_EL_T = [15, 53, 113, 400, 1000]
 
@@ -279,8 +279,8 @@ EL = dict(precs=PRECS_EL)
 MQ = dict(precs=PRECS_EL, regime="metamorphic")
 
 reg("besselj_int", "besselj", lambda c, n, x: c.besselj(n, M(c, x)), r_besselj_int, lambda rng, p: [rng.randint(-4, 12), g_xs(rng)], w=1.5, regime="integral", **IQ)
-reg("besselj_int_small", "besselj", lambda c, n, x: c.besselj(n, M(c, x)), gen=lambda rng, p: [rng.randint(0, 16), Fraction(rng.randint(1, 255), 2 ** rng.randint(8, 24))],
-    build=b_besselj_small, w=1.5, regime="small-argument-series", **EL)
+reg("besselj_int_small", "besselj", lambda c, n, x: c.besselj(n, M(c, x)), gen=lambda rng, p: [rng.choice([rng.randint(0, 3), rng.randint(4, 16), rng.randint(4, 16)]), Fraction(rng.randint(1, 255), 2 ** rng.randint(10, 36))],
+    build=b_besselj_small, w=2.5, regime="small-argument-series", **EL)
 reg("besseli_int", "besseli", lambda c, n, x: c.besseli(n, M(c, x)), r_besseli_int, lambda rng, p: [rng.randint(-3, 10), g_xs(rng, 20)], w=1.2, regime="integral", **IQ)
 reg("angerj", "angerj", lambda c, v, x: c.angerj(M(c, v), M(c, x)), r_angerj, lambda rng, p: [g_nonint_order(rng), g_xs(rng, 12)], w=0.6, regime="integral", **IQ)
 reg("webere", "webere", lambda c, v, x: c.webere(M(c, v), M(c, x)), r_webere, lambda rng, p: [g_order(rng), g_xs(rng, 12)], w=0.6, regime="integral", **IQ)
@@ -336,10 +336,10 @@ def run(rep, tier_, rng):
         for k in K:
             if k.precs is PRECS_QUICK: k.precs = PRECS_THOROUGH
             elif k.precs is PRECS_EL: k.precs = PRECS_EL_T
-    run_kinds(rep, K, tier_, rng, n_quick=int(os.environ.get("VERIF_B3_N", 50)), n_thorough=500, precs_quick=PRECS_QUICK,
+    run_kinds(rep, K, tier_, rng, n_quick=int(os.environ.get("VERIF_B3_N", 50)), n_thorough=200, precs_quick=PRECS_QUICK,
               precs_thorough=PRECS_THOROUGH, assumptions=ASSUMPTIONS, rule=RULE, not_decided=NOT_DECIDED,
               params={"sentence_timeout": 100 if tier_ == "quick" else 400, "single_timeout": 100 if tier_ == "quick" else 400,
-                      "batch": 5, "ladder": [1]}, budget_quick=120)
+                      "batch": 5, "ladder": [1]}, budget_quick=105)
 
 
 def replay(rep, path):
